@@ -217,9 +217,43 @@ def work_errors(task):
     return ev
 
 
+def work_named_arith(task):
+    """Arithmetic and casts on named constants give numbers that name nothing in their domain; every
+    renderer must cope with them (full, brief inside a sequence, %s %d %x %o %b, value, the dump)."""
+    lo, hi = task
+    ev = Evidence()
+    drv = Driver()
+    try:
+        names = [w for w in sorted(set(drv.vocab("core") + drv.vocab("dw"))) if w[0] not in "?!@" and (w.startswith(("T_", "DW_", "ST")) or w in ("true", "false"))]
+        # a spread over all families, the same every run
+        fams = {}
+        for w in names:
+            fams.setdefault(w.split("_")[0] + "_" + (w.split("_")[1] if w.startswith("DW_") else ""), []).append(w)
+        picked = sorted(w for ws in fams.values() for w in (ws[0], ws[-1], ws[len(ws) // 2]))
+        ops = ["7 sub", "300 add", "-1 mul", "0x7fffffffffffffff add", "2 div", "hex", "-9 add 2 mod"]
+        rends = ["", "\"%s\"", "[()] \"%s\"", "\"%x %o %b %d\" swap drop", "value", "[(), 1] elem type"]
+        cases = [(w, o, r) for w in picked for o in ops for r in rends][lo:hi]
+        texts = []
+        for w, o, r in cases:
+            text = "%s %s (|V| V %s)" % (w, o, r)
+            texts.append(text)
+            try:
+                abandon_all(drv, ev, text, "", maxn=3)
+            except DriverCrash as e:
+                ev.violations.append(crash_record("named-arith", text, e.report))
+            except DriverTimeout:
+                ev.inconc("watchdog")
+            ev.label("named-constant-arithmetic")
+        leak_gate(drv, ev, "arithmetic on named constants", texts)
+    finally:
+        drv.kill()
+    return ev
+
+
 def main(tier, seed):
     t0 = time.time()
     ev = Evidence()
+    ev.merge(run_pool(work_named_arith, [(lo, lo + 400) for lo in range(0, 6400, 400)]))
     ev.merge(run_pool(work_errors, [(lo, lo + 4) for lo in range(0, len(ERROR_TEMPLATES), 4)]))
     ev.extra["error_templates"] = len(ERROR_TEMPLATES)
     ngen, depth, fuzz_s, fuzz_w = (1600, 3, 45, 12) if tier == "quick" else (40000, 3, 900, 16)
